@@ -16,7 +16,7 @@ type WritePlan struct {
 	FailAtByte int  // fail once this many bytes were accepted: the write that crosses it is short; <0 = never
 	Once       bool // fail only the first time the condition holds, then heal
 	fired      bool
-	ShortNoErr bool // the crossing write returns n<len(p) with a nil error (illegal writer; not used by default)
+	ShortNoErr bool // the crossing write returns n<len(p) with a nil error (a writer that breaks its contract silently), once
 }
 
 // SimFile is the simulated disk file: an in-memory byte stream that records every write
@@ -35,7 +35,7 @@ func NewSimFile() *SimFile { return &SimFile{Plan: WritePlan{FailAtByte: -1}} }
 func (f *SimFile) Write(p []byte) (int, error) {
 	f.calls++
 	pl := &f.Plan
-	healed := pl.Once && pl.fired
+	healed := (pl.Once || pl.ShortNoErr) && pl.fired
 	if !healed && pl.FailAtCall > 0 && f.calls >= pl.FailAtCall {
 		pl.fired = true
 		f.Fired++
@@ -51,6 +51,9 @@ func (f *SimFile) Write(p []byte) (int, error) {
 		f.Writes = append(f.Writes, n)
 		pl.fired = true
 		f.Fired++
+		if pl.ShortNoErr {
+			return n, nil // a writer that takes part of the data and says nothing (once, then it heals)
+		}
 		return n, errDiskWrite
 	}
 	f.Data = append(f.Data, p...)
